@@ -116,6 +116,9 @@ FAULTS = {
     'api-teardown-2': (None, 'teardown'),
     'api-teardown-4': (None, 'teardown'),
     'api-teardown-6': (None, 'teardown'),
+    # a code that does not fit the one-octet subcode: refused (the session goes on) or a Cease all the same, never a silent close
+    'api-teardown-300': (None, 'teardown-or-refused'),
+    'api-teardown-0': (None, 'teardown-or-refused'),
     # the peer's NOTIFICATION and a local teardown at the same moment (both ends reset the session): crossing
     # NOTIFICATIONs are legal, but once ExaBGP has read the peer's it must not write its own
     'teardown-then-notif': (None, 'notification+teardown'),      # API command processed, then the NOTIFICATION arrives in the same instant
@@ -197,6 +200,8 @@ def allowed(fault_class: str, state: str, fault: str, hold: int):
         return {(4, 0), (5, 2)}, True
     if fault_class in ('teardown', 'notification+teardown'):
         return {(6, s) for s in range(0, 10)}, True
+    if fault_class == 'teardown-or-refused':
+        return {(6, s) for s in range(0, 10)}, True   # (the oracle tells a session that goes on from one closed without a word)
     raise core.HarnessError(f'no oracle for {fault_class}')
 
 
@@ -212,7 +217,7 @@ class Env(c05.Env):
             state = self.fsm()
             default = self.default_action().split(':')[0]
             for f, (_, cls) in FAULTS.items():
-                if cls in ('teardown', 'notification+teardown') and state != 'ESTABLISHED':
+                if cls in ('teardown', 'teardown-or-refused', 'notification+teardown') and state != 'ESTABLISHED':
                     continue
                 # the message the remote would send now anyway is not a fault
                 if f.startswith('unexp-open') and default == 'open':
@@ -248,7 +253,7 @@ class Env(c05.Env):
                 self.hold_silenced = True
                 self.sent_ka.discard(s.index)
                 w.advance(self.hold + 3.5)
-            elif cls == 'teardown':
+            elif cls in ('teardown', 'teardown-or-refused'):
                 w.api_write(b'peer * teardown %s\n' % arg.rsplit('-', 1)[1].encode())
             elif cls == 'notification+teardown':
                 def feed():
